@@ -106,6 +106,7 @@ pub struct JobOut {
     pub wall_s: f64,
     pub sample: Option<String>,
     pub recompilations: usize,
+    pub objdump_checked: usize,
 }
 
 enum SubEnd {
@@ -175,7 +176,22 @@ fn run_job_w<const B: u32>(job: &Job, specs: &[Spec], cfg: &JobCfg) -> JobOut {
             let safe = !matches!(spec.mode, Mode::Unsafe(_));
             let r = catch_unwind(AssertUnwindSafe(|| crate::x86env::build(&job.code, B, spec.level, limited, safe)));
             match r {
-                Ok(Ok(p)) => jits.push(Some(p)),
+                Ok(Ok(p)) => {
+                    if std::env::var("SYMX_OBJDUMP").is_ok() {
+                        // decoder cross-check: same instruction boundaries as GNU objdump
+                        match (crate::x86env::model_boundaries(&p.code), crate::x86env::objdump_boundaries(&p.code)) {
+                            (Ok(a), Some(b)) => {
+                                out.objdump_checked += 1;
+                                if a != b {
+                                    out.inconclusive.push(format!("{}: the x86 model and objdump disagree on the instruction boundaries of the emitted code", spec.label()));
+                                }
+                            }
+                            (Err(e), _) => out.inconclusive.push(format!("{}: decoder: {}", spec.label(), e)),
+                            (_, None) => out.inconclusive.push(format!("{}: objdump not available for the cross-check", spec.label())),
+                        }
+                    }
+                    jits.push(Some(p))
+                }
                 Ok(Err(e)) => {
                     out.candidates.push(mk_case(cfg, job, spec, &product::ConcreteEnv::default(), format!("create returned an error on a balanced program: {}", e)));
                     jits.push(None);
